@@ -33,6 +33,8 @@ var (
 )
 
 type world struct {
+	lastTick time.Time
+	tainted  bool
 	r         *hx.Run
 	s         *stack.Stack
 	l         *netsim.Link
@@ -47,6 +49,16 @@ func (w *world) nowMs() int { return int(time.Since(w.start) / time.Millisecond)
 
 // settle: move away from any timer deadline so that the model's clock is unambiguous
 func (w *world) settle() int {
+	// on a loaded machine timers and goroutines run late and the 20 ms margins below mean nothing: wait for a moment
+	// in which a 1 ms sleep takes about 1 ms (bounded: give up after a quarter of a second and carry on)
+	for k := 0; k < 80; k++ {
+		t := time.Now()
+		time.Sleep(time.Millisecond)
+		if time.Since(t) < 3*time.Millisecond {
+			break
+		}
+		w.r.Count("settle.machine-busy")
+	}
 	for {
 		n := w.nowMs()
 		near := false
@@ -89,6 +101,7 @@ func (w *world) outs() string {
 }
 
 func (w *world) reset() {
+	w.tainted = false
 	w.sl.Done()
 	w.s = netsim.NewStack()
 	w.s.VerifSetLinkAddrCacheTiming(ageMs*time.Millisecond, timeoutMs*time.Millisecond, attempts)
@@ -110,17 +123,39 @@ func (w *world) reset() {
 }
 
 func (w *world) tick() {
+	if w.tainted { // the history was cut (an operation ran late): nothing more is recorded until the next reset
+		return
+	}
 	t := w.settle()
+	w.lastTick = time.Now()
 	w.r.Emit(fmt.Sprintf("t %d", t), w.outs())
 }
 
+// late: the operation ran noticeably later than the clock sample the model gets for it (the process was
+// descheduled in between): what it returned cannot be compared with a prediction made for the sampled time. The
+// operation is left out of the record and the history ends here.
+func (w *world) late() bool {
+	if time.Since(w.lastTick) > 8*time.Millisecond {
+		w.tainted = true
+		w.r.Count("history-cut.operation-ran-late")
+		return true
+	}
+	return false
+}
+
 func (w *world) get(addr []byte) {
+	if w.tainted { // the history was cut (an operation ran late): nothing more is recorded until the next reset
+		return
+	}
 	w.tick()
 	wk := &sleep.Waker{}
 	w.wk = append(w.wk, wk)
 	w.sl.AddWaker(wk, len(w.wk))
 	n := w.nowMs()
 	la, _, err := w.s.GetLinkAddress(1, tcpip.Address(addr), tcpip.Address(our4), header.IPv4ProtocolNumber, wk)
+	if w.late() {
+		return
+	}
 	res := ""
 	switch err {
 	case nil:
@@ -141,18 +176,30 @@ func (w *world) get(addr []byte) {
 }
 
 func (w *world) add(addr, mac []byte) {
+	if w.tainted { // the history was cut (an operation ran late): nothing more is recorded until the next reset
+		return
+	}
 	w.tick()
 	n := w.nowMs()
 	w.s.AddLinkAddress(1, tcpip.Address(addr), tcpip.LinkAddress(mac))
+	if w.late() {
+		return
+	}
 	w.deadlines = append(w.deadlines, n+ageMs)
 	w.r.Count("add")
 	w.r.Emit(fmt.Sprintf("add 1 %s %s", hx.Hex(addr), hx.Hex(mac)), w.outs())
 }
 
 func (w *world) arpIn(pkt, from []byte) {
+	if w.tainted { // the history was cut (an operation ran late): nothing more is recorded until the next reset
+		return
+	}
 	w.tick()
 	n := w.nowMs()
 	w.l.Inject(arp.ProtocolNumber, tcpip.LinkAddress(from), pkt)
+	if w.late() {
+		return
+	}
 	w.deadlines = append(w.deadlines, n+ageMs)
 	time.Sleep(2 * time.Millisecond)
 	rep := "reply=-"
@@ -171,6 +218,9 @@ func (w *world) arpIn(pkt, from []byte) {
 
 // udpWrite: a datagram to a neighbour through the full stack (route lookup, resolution, link layer)
 func (w *world) udpWrite(addr []byte) {
+	if w.tainted { // the history was cut (an operation ran late): nothing more is recorded until the next reset
+		return
+	}
 	w.tick()
 	n := w.nowMs()
 	if w.ep == nil {
@@ -184,6 +234,9 @@ func (w *world) udpWrite(addr []byte) {
 		w.ep = ep
 	}
 	_, _, err := w.ep.Write(tcpip.SlicePayload([]byte("hello")), tcpip.WriteOptions{To: &tcpip.FullAddress{Addr: tcpip.Address(addr), Port: 9}})
+	if w.late() {
+		return
+	}
 	time.Sleep(3 * time.Millisecond)
 	ip := 0
 	mac := ""
@@ -217,6 +270,9 @@ func (w *world) udpWrite(addr []byte) {
 }
 
 func (w *world) sleepMs(ms int) {
+	if w.tainted { // the history was cut (an operation ran late): nothing more is recorded until the next reset
+		return
+	}
 	time.Sleep(time.Duration(ms) * time.Millisecond)
 	w.tick()
 }
@@ -267,7 +323,7 @@ func Gen(r *hx.Run) {
 	for h := 0; h < nh; h++ {
 		w.reset()
 		n := 4 + r.R.Intn(14)
-		for k := 0; k < n; k++ {
+		for k := 0; k < n && !w.tainted; k++ {
 			p := r.R.Intn(len(peers))
 			switch r.R.Intn(10) {
 			case 0, 1, 2:
@@ -303,10 +359,15 @@ func Gen(r *hx.Run) {
 				}
 			}
 		}
+		if w.tainted {
+			continue
+		}
 		// let everything pending run to completion, then look every peer up once more
 		w.sleepMs(attempts*timeoutMs + 50)
 		for _, p := range peers {
-			w.get(p)
+			if !w.tainted {
+				w.get(p)
+			}
 		}
 	}
 	// cache overflow: more than 512 neighbours, then the early ones must be gone and late ones intact
@@ -332,7 +393,7 @@ func Gen(r *hx.Run) {
 	// stale records: a neighbour that was overwritten / re-resolved leaves its old record behind in the ring; when
 	// the ring wraps onto that record the live one must survive (and a waiter on it must still be told the outcome)
 	bulk := func(from, n int) {
-		for i := from; i < from+n; i++ {
+		for i := from; i < from+n && !w.tainted; i++ {
 			a := []byte{10, 2, byte(i >> 8), byte(i)}
 			m := []byte{2, 2, 0, 0, byte(i >> 8), byte(i)}
 			w.s.AddLinkAddress(1, tcpip.Address(a), tcpip.LinkAddress(m))
